@@ -2,7 +2,7 @@
    bool/option/unit/list/prod/sumbool map to OCaml's own types; Z, N, positive and nat stay
    Coq's inductive types.  No Extract Constant / Extract Inductive directive of our own. *)
 From Coq Require Import Extraction ExtrOcamlBasic.
-From Suiron Require Import Model.Str Model.Float Model.Term Model.Subst Model.Compare Model.Arith Model.Show Model.Lists Model.Unify Model.Builtins Model.Rename.
+From Suiron Require Import Model.Str Model.Float Model.Term Model.Subst Model.Compare Model.Arith Model.Show Model.Lists Model.Unify Model.Builtins Model.Rename Model.Solve Spec.SpecSolve.
 Extraction Language OCaml.
 Extraction "model.ml"
   Z.add Z.mul Z.opp Z.of_N N.add N.mul N.of_nat Nat.add Z.compare N.compare
@@ -12,4 +12,6 @@ Extraction "model.ml"
   bip_compare evaluate
   show_term term_key make_linked_list make_list_of_terms link_front count_terms get_terms
   unify evaluate_join eval_function replace_variables filter run_bip format_for_print_pred format_slist
-  rename_term rename_terms rename_goal rename_rule add_rules get_rule make_query kb_get.
+  rename_term rename_terms rename_goal rename_rule add_rules get_rule make_query kb_get
+  world0 api_make_query make_base_node make_node next solve solve_all query_stopped count_rules format_solution
+  sem query_events answers_of output_of.
